@@ -70,7 +70,7 @@ PLAN["C11"] = {
     "nontrivial": "the stream wrapped the 32-packet receive buffer at least once and >=1 read ended inside a type or length field (readTlvStream), or >3 blocks went through StreamFace.Run over a pipe",
     "fault_note": "stream I/O faults: arbitrary chunking incl. 1-byte reads and reads ending inside T/L, reads that exactly fill the buffer, transient read errors (with and without data), EOF at an arbitrary byte",
     "components": {"real": ["fw/face readTlvStream (the loop behind TCP and Unix stream transports)", "std/engine/face StreamFace.Run (over net.Pipe in a synctest bubble)", "std/encoding ReadTLNum", "fw/face readTlvDatagrams (the loop behind the UDP transports; 2% of runs on a scripted datagram socket: whole blocks grouped into datagrams, transient errors)", "5% of runs: the receive loops of the real TCP (accepted and outgoing-permanent), Unix-stream and unicast UDP transports over loopback sockets"], "stub": ["socket (scripted io.Reader / net.Pipe; real loopback sockets in 5% of runs)", "link service above the framing (frames are copied inside the callback, as handleIncomingFrame does)"]},
-    "assumptions": ["TLV lengths use the shortest encoding (NDN packet format); 5-byte VAR-NUMBER forms are exercised in the type field", "EOF is delivered as a separate (0, EOF) read, as net.Conn does"],
+    "assumptions": ["TLV lengths use the shortest encoding (NDN packet format) except in 5% of the fw/std runs, where some are written in 3- and 5-byte forms: there a refusal of the stream is accepted, altered frames are not; 5-byte VAR-NUMBER forms are exercised in the type field", "EOF is delivered as a separate (0, EOF) read, as net.Conn does, or (15% of the fw runs) together with the last bytes"],
 }
 PLAN["C10"] = {
     "parts": [{"engine": "linksim", "quick": 300000, "thorough": 20000000}],
